@@ -127,6 +127,8 @@ struct World {
     seen_keys: BTreeSet<String>,
     fp_ring_n: u32,
     fp_route_n: u32,
+    /// this run routes some batches while another OS thread holds the ring's write lock
+    lock_probe: bool,
 }
 
 impl World {
@@ -329,7 +331,27 @@ impl World {
             Mode::Standalone => {
                 let r = self.nodes[n].router.as_ref().expect("standalone router");
                 if !r.is_selective() { problems.push((K_NOT_SELECTIVE, format!("router of node {} built with selective_mode = true reports is_selective() = false", me))); }
-                let table = if self.next_uid % 2 == 0 { how = "GossipRouter::route_deltas"; r.route_deltas(deltas.clone()) } else { how = "GossipRouter::route_with_stats"; r.route_with_stats(deltas.clone()).0 };
+                let table = if self.lock_probe && self.next_uid % 7 == 3 {
+                    // the membership task holds the ring's write lock (mid add_node) while the gossip task routes:
+                    // a real second thread takes the lock first; routing has to wait for it, whatever that takes
+                    how = "GossipRouter::route_deltas while another thread holds the ring write lock";
+                    rep.probe("routed_while_ring_write_locked"); rep.fault("ring_write_lock_held_by_other_thread");
+                    let ring = self.nodes[n].ring.clone();
+                    let ds = deltas.clone();
+                    std::thread::scope(|sc| {
+                        let (tx_locked, rx_locked) = std::sync::mpsc::channel::<()>();
+                        let (tx_rel, rx_rel) = std::sync::mpsc::channel::<()>();
+                        sc.spawn(move || { let g = ring.write().expect("ring lock"); let _ = tx_locked.send(()); let _ = rx_rel.recv(); drop(g); });
+                        let _ = rx_locked.recv();
+                        let (tx_res, rx_res) = std::sync::mpsc::channel();
+                        sc.spawn(move || { let t = r.route_deltas(ds); let _ = tx_res.send(t); });
+                        // a grace period in real time: long enough for a router that does not wait to come back;
+                        // a router that waits is released right after and gives the same table as always
+                        let early = rx_res.recv_timeout(std::time::Duration::from_millis(15));
+                        let _ = tx_rel.send(());
+                        match early { Ok(t) => t, Err(_) => rx_res.recv().expect("router thread") }
+                    })
+                } else if self.next_uid % 2 == 0 { how = "GossipRouter::route_deltas"; r.route_deltas(deltas.clone()) } else { how = "GossipRouter::route_with_stats"; r.route_with_stats(deltas.clone()).0 };
                 let mut t: Vec<(u64, Vec<ReplicationDelta>)> = table.into_iter().map(|(k, v)| (k.0, v)).collect();
                 t.sort_by_key(|(k, _)| *k);
                 for (target, ds) in t {
@@ -518,9 +540,11 @@ impl Property for C19 {
         }
         let mut w = World {
             rf, vnodes, rf2, self_in_peers, keys, wrap_keys, nodes: Vec::new(), pool: pool.clone(), fresh: BTreeMap::new(), flights: Vec::new(),
-            upds: BTreeMap::new(), received: BTreeMap::new(), next_uid: 0, fp: 0, stop: false, seen_keys: BTreeSet::new(), fp_ring_n: 0, fp_route_n: 0,
+            upds: BTreeMap::new(), received: BTreeMap::new(), next_uid: 0, fp: 0, stop: false, seen_keys: BTreeSet::new(), fp_ring_n: 0, fp_route_n: 0, lock_probe: false,
         };
         w.fp = fnv(0, format!("{:?}|{}|{}|{}|{}|{:?}|{:?}", pool, rf, vnodes, rf2, self_in_peers, m0, w.keys).as_bytes());
+        // one run in 48 (decided by the run's own content, no extra draw)
+        w.lock_probe = w.fp % 48 == 0;
         // ---- nodes: own ring in own join order, own router
         for (n, id) in pool.iter().enumerate() {
             src.begin();
